@@ -1,7 +1,9 @@
 """C05 — retry: generator, implementation-side monitors.
 
-header: retry [max=N] [dyn=1] [retry=<bitmask of retryable kinds>] [bo=fixed:D|exp:D|fn:a,b,…]
+header: retry [max=N] [dyn=1] [retry=<bitmask of retryable kinds>] [bo=fixed:D|exp:D|fn:a,b,…] [unit=us]
               [budget=bucket:<max>:<initial> | aimd:<min>:<max>:<dep>:<wd>:<q>]
+        back-off values D are milliseconds, microseconds with unit=us, or `max` (= Duration::MAX); the op clock
+        (adv, t=, inner latencies) is always in milliseconds
 ops:    arrive <c> [ma=N] inner=<lat>:<out>,…   poll/drop/adv/settle   probe balance|limit
         manual deposit|withdraw
 """
@@ -38,21 +40,51 @@ def gen(rng, tier):
     if rng.random() < 0.7:
         words.append("retry=%d" % rng.choice([0, 2, 2, 2, 4, 6, 10, 14, 14]))
     r = rng.random()
-    bo_vals = []
+    # one in three configurations has back-offs with sub-millisecond resolution (unit=us); a few have a
+    # Duration::MAX-like value (`max`, or the largest u64 of the unit) somewhere
+    us = rng.random() < 0.34
+    huge = rng.random() < 0.10
+
+    def val(pool):
+        if huge and rng.random() < 0.4:
+            return rng.choice(["max", "max", str(2 ** 64 - 1)])
+        return str(rng.choice(pool))
+
+    bo_us = []        # the finite configured delays, in µs (advances are biased to them)
     if r < 0.06:
-        bo_vals = [100, 200, 400]
+        bo_us = [100000, 200000, 400000]
     elif r < 0.40:
-        d = rng.choice([0, 0, 1, 5, 10, rng.randint(1, 30)])
-        words.append("bo=fixed:%d" % d)
-        bo_vals = [d]
+        if us:
+            d = val([0, 1, 500, 900, 999, 1000, 1001, 1500, 2250, 2999, 10500, rng.randint(1, 6000)])
+        else:
+            d = val([0, 0, 1, 5, 10, rng.randint(1, 30)])
+        words.append("bo=fixed:%s" % d)
+        bo_us = [_us(d, us)]
     elif r < 0.70:
-        d = rng.choice([0, 1, 2, 3, 5, 7, rng.randint(1, 50)])
-        words.append("bo=exp:%d" % d)
-        bo_vals = [d, 2 * d, 4 * d, 8 * d]
+        if us:
+            d = rng.choice([0, 1, 300, 500, 900, 999, 1000, 1001, 1500, rng.randint(1, 4000)])
+        else:
+            d = rng.choice([0, 1, 2, 3, 5, 7, rng.randint(1, 50)])
+        if huge and rng.random() < 0.4:
+            d = "max"                  # saturates: every delay is Duration::MAX
+        words.append("bo=exp:%s" % d)
+        bo_us = [min(_us(d, us) * 2 ** k, DUR_MAX_US) for k in range(4)]
     else:
-        t = [rng.choice([0, 0, 1, 3, 10, rng.randint(0, 25)]) for _ in range(rng.randint(0, 5))]
-        words.append("bo=fn:" + ",".join(str(x) for x in t))
-        bo_vals = t or [0]
+        if us:
+            t = [val([0, 0, 1, 400, 900, 999, 1000, 1001, 1500, 3000, 2250, rng.randint(0, 5000)])
+                 for _ in range(rng.randint(0, 5))]
+        else:
+            t = [val([0, 0, 1, 3, 10, rng.randint(0, 25)]) for _ in range(rng.randint(0, 5))]
+        words.append("bo=fn:" + ",".join(t))
+        bo_us = [_us(x, us) for x in t] or [0]
+    if us:
+        words.append("unit=us")
+    # advances (ms) around the configured delays: the last whole ms before, and the first at/after the deadline
+    bo_vals = []
+    for x in bo_us:
+        if x < 10 ** 9:
+            bo_vals += [x // 1000, -(-x // 1000)]
+    bo_vals = bo_vals or [0]
     r = rng.random()
     budget = None
     if r < 0.35:
@@ -117,24 +149,44 @@ def gen(rng, tier):
 
 # ------------------------------------------------------------------------------ reading a case
 
+DUR_MAX_US = 2 ** 64 * 10 ** 6          # Duration::MAX (u64::MAX s + 999 999 999 ns), rounded up to whole µs
+
+
+def _us(x, us):
+    """one configured back-off value -> µs"""
+    x = str(x)
+    if x == "max":
+        return DUR_MAX_US
+    n = int(x) if x.isdigit() else 0
+    return n if us else n * 1000
+
+
+def _fmt_us(d):
+    if d >= DUR_MAX_US:
+        return "Duration::MAX"
+    return "%d us" % d if d % 1000 else "%d ms" % (d // 1000)
+
+
 def _cfg(case):
     kv = kvs(case["header"])
     mx = int(kv.get("max", "3"))
     dyn = kv.get("dyn") == "1"
     mask = int(kv["retry"]) if "retry" in kv else None
     bo = kv.get("bo")
+    us = kv.get("unit") == "us"
+    # backoff(k): the configured delay before retry k+1, in MICROSECONDS
     if bo is None:
-        backoff = lambda k: 100 * 2 ** k
+        backoff = lambda k: 100000 * 2 ** k
     else:
         kind, _, arg = bo.partition(":")
         if kind == "fixed":
-            d = int(arg or 0)
+            d = _us(arg, us)
             backoff = lambda k: d
         elif kind == "exp":
-            d = int(arg or 0)
-            backoff = lambda k: d * 2 ** k
+            d = _us(arg, us)
+            backoff = lambda k: min(d * 2 ** k, DUR_MAX_US)
         else:
-            t = [int(x) for x in arg.split(",") if x]
+            t = [_us(x, us) for x in arg.split(",") if x]
             backoff = lambda k: t[k] if k < len(t) else 0
     budget = None
     if "budget" in kv:
@@ -279,8 +331,9 @@ def _visited(case):
 
 
 def mon_backoff(case, lines, meta):
-    """gap between the end of attempt k-1 and the start of attempt k >= backoff(k-1); equal when
-    polled on time; a late start is only legitimate if the waker fired at the deadline"""
+    """gap between the end of attempt k-1 and the start of attempt k >= backoff(k-1), compared in MICROSECONDS
+    (instants of the log are whole ms, configured back-offs have µs resolution); equal to the first whole
+    ms at/after the deadline when polled on time; a late start is only legitimate if the waker fired at the deadline"""
     cfg = _cfg(case)
     per = _per_caller(lines)
     visited = _visited(case)
@@ -300,10 +353,10 @@ def mon_backoff(case, lines, meta):
                     if last_done is None:
                         return "request %s: attempt %d started before attempt %d finished" % (c, k, k - 1)
                     d = cfg["backoff"](k - 1)
-                    if t < last_done + d:
-                        return "request %s: retry %d started at t=%d, %d ms after attempt %d ended (t=%d); backoff(%d) = %d ms" % (
-                            c, k, t, t - last_done, k - 1, last_done, k - 1, d)
-                    due = next((x for x in visited if x >= last_done + d), None)
+                    if t * 1000 < last_done * 1000 + d:
+                        return "request %s: retry %d started at t=%d ms, %d ms after attempt %d ended (t=%d ms); backoff(%d) = %s" % (
+                            c, k, t, t - last_done, k - 1, last_done, k - 1, _fmt_us(d))
+                    due = next((x for x in visited if x * 1000 >= last_done * 1000 + d), None)
                     if due is not None and t > due and d > 0:
                         fired = any(due in ws for (pos, ws) in wakes.get(c, []) if pos <= i)
                         if not fired:
@@ -420,13 +473,24 @@ def transitions(case, lines, meta=None):
                     tags.append("first-call")
                 else:
                     tags.append("retry-same-instant" if last_done == t else "retry-after-sleep")
-                    if last_done is not None and t == last_done + cfg["backoff"](n - 1) and t != last_done:
+                    d = cfg["backoff"](n - 1)
+                    if last_done is not None and t == last_done + -(-d // 1000) and t != last_done:
                         tags.append("retry-exactly-at-deadline")
-                    elif last_done is not None and t > last_done + cfg["backoff"](n - 1):
+                    elif last_done is not None and t > last_done + -(-d // 1000):
                         tags.append("retry-late")
+                    if d % 1000:
+                        tags.append("retry-after-broken-ms-backoff")
+                        if d < 1000:
+                            tags.append("retry-after-sub-ms-backoff")
+                    if d == 0:
+                        tags.append("retry-zero-backoff")
                 n += 1
             elif kind == "inner_done":
                 last_done, last_out = t, w[3]
+                nxt = evs[j + 1] if j + 1 < len(evs) else None
+                if (nxt is None or nxt[0] != "result") and _errkind(w[3]) is not None \
+                        and cfg["backoff"](n - 1) >= 10 ** 15:
+                    tags.append("sleeping-huge-backoff")
             elif kind == "inner_drop":
                 tags.append("dropped-calling")
             elif kind == "result":
@@ -458,6 +522,7 @@ def nontrivial(case, lines, tags):
 
 
 ALL = ["first-call", "retry-same-instant", "retry-after-sleep", "retry-exactly-at-deadline", "retry-late",
+       "retry-after-broken-ms-backoff", "retry-after-sub-ms-backoff", "retry-zero-backoff", "sleeping-huge-backoff",
        "dropped-calling", "stop-panic", "stop-ok-first", "stop-ok-after-retry", "stop-refused-by-predicate",
        "stop-exhausted", "stop-max-attempts-0", "stop-budget-refused", "probe-balance", "probe-limit",
        "probe-deposited", "probe-withdraw-0", "probe-withdraw-1", "invalid-op-noop"]
@@ -467,7 +532,10 @@ LEVEL_NOTE = ("Trusted: Lean kernel; the transcription of the retry loop (lib.rs
               "check; tokio `sleep` (ready at the first poll at or after its deadline, also for a zero delay); the harness "
               "(virtual clock, manual poller, scripted inner service) and the python diff/monitors. The interleaving of the "
               "atomic operations inside try_withdraw/deposit is C08's subject, here each is one atomic step. Back-off "
-              "durations are whole milliseconds; ExponentialRandomBackoff (jitter) is C14's subject and not exercised here. "
+              "durations have microsecond resolution (zero and Duration::MAX included), instants are whole milliseconds; "
+              "tokio's timer rounds a deadline UP to the millisecond (transcribed as ceilMs, probed through the real layer); "
+              "a deadline std cannot represent is 'now + 30 years' in tokio and exact in the model (they agree on every "
+              "history shorter than that); ExponentialRandomBackoff (jitter) is C14's subject and not exercised here. "
               "Wake-ups at the end of a back-off are observed by the harness's waker monitor, not modelled.")
 
 SPECS = {
@@ -486,21 +554,25 @@ SPECS = {
         "sizes": (800, 40000),
         "rule": "seeded random op sequences over 1..6 requests sharing one retry layer (and one budget): max_attempts absent/0..6 "
                 "fixed or per request (ma=0..7), predicate bitmask over error kinds 1..3 or none, back-off default/fixed/exponential/"
-                "custom table (whole ms, incl. 0), budget none / token bucket (max 0..4, initial 0..max+2) / AIMD (min<=max, deposit "
+                "custom table (whole ms, or — one configuration in three — microseconds: 1..6000 us with broken and whole ms mixed; "
+                "incl. 0; one in ten with Duration::MAX / u64::MAX values), budget none / token bucket (max 0..4, initial 0..max+2) / AIMD (min<=max, deposit "
                 "and withdraw amounts 0..3, decrease factor q/4), scripts of 0..8 inner calls (latency 0..12 ms; ok/err1..3/panic/never), "
-                "polls/drops/settles interleaved, advances biased to the back-off values -1/0/+1, manual deposit/withdraw by another "
+                "polls/drops/settles interleaved, advances biased to the back-off values rounded down and up to ms, -1/0/+1, manual deposit/withdraw by another "
                 "budget holder, probes; distinct = distinct implementation event log; non-trivial = at least one retry, a stop by "
                 "predicate/exhaustion/budget/panic, or a cancelled inner call",
         "trusted": ["tokio sleep semantics and the sequential budget semantics as transcribed in TR.Model.Retry (sampled by the correspondence check)",
                     "harness: clock_gettime interposition, manual poller, scripted inner service", "python diff/monitors"],
         "assumptions": ["one poll of one call future is atomic (single-threaded runtime)",
                         "each try_withdraw / deposit is one atomic step (their internal interleavings: C08)",
-                        "usize/u64 modelled as unbounded Nat; back-off durations are whole milliseconds"],
+                        "usize/u64 modelled as unbounded Nat; back-off durations are whole microseconds, instants whole milliseconds "
+                        "(the harness advances time in ms); virtual time stays below tokio's 30-year 'far future'"],
         "level_text": "Theorems TR.Props.C05.*: for every configuration (max_attempts fixed or per request incl. 0, every predicate, every "
                       "back-off function, every budget = every sequence of grant answers) and every operation sequence (all scripts, all "
                       "interleavings of the polls of any number of requests) each request makes between 1 and max(1,max_attempts) inner "
                       "calls, every attempt but the last ended in an error the predicate accepts, the result is the last attempt's outcome, "
-                      "the delay before retry k is backoff(k-1) counted from the observation of the failure, with a budget the retries equal "
+                      "the delay handed to the timer before retry k is backoff(k-1) (in us), the retry starts no earlier than the observation of "
+                      "the failure + backoff(k-1) compared in microseconds — the timer rounds up to the first millisecond boundary, never "
+                      "down —, with a budget the retries equal "
                       "the true grants and a false grant ends the request, and retries x cost + balance <= initial + deposits x amount for "
                       "the token bucket and the AIMD budget. The model is tied to the real RetryLayer by line-for-line agreement of event logs.",
         "level_note": LEVEL_NOTE,
